@@ -692,6 +692,189 @@ Proof.
       split; [discriminate|]. split; [auto|]. split; [auto|]. intros E. rewrite Hs in E. discriminate.
 Qed.
 
+(** * the no-op alias policy *)
+
+Lemma alias_noop_cases : forall F s src dst k,
+  alias_noop F s src dst k = k
+  \/ (alias_noop F s src dst k = (s, None) /\ exists a, stat s src = Ok a /\ stat s dst = Ok a).
+Proof.
+  intros F s src dst k. unfold alias_noop, open.
+  destruct (faulty (F SOpen) (stat s src)) as [si|] eqn:Ho; [|auto].
+  destruct (F SFstat); auto.
+  destruct (faulty (F SStatDst) (stat s dst)) as [di|] eqn:Hd; [|auto].
+  destruct (si =? di) eqn:E; [|auto].
+  right. split; [reflexivity|]. apply N.eqb_eq in E. subst di.
+  apply faulty_ok in Ho, Hd. eauto.
+Qed.
+
+Lemma alias_noop_skip : forall F s src dst i k,
+  stat s src = Ok i -> stat s dst <> Ok i -> alias_noop F s src dst k = k.
+Proof.
+  intros F s src dst i k Hs Hne. destruct (alias_noop_cases F s src dst k) as [E | [_ (a & Ha & Hb)]]; [assumption|].
+  exfalso. apply Hne. congruence.
+Qed.
+
+(** CopyFile (write-through) with the no-op policy: as C18_copy_faults, except that a nil result on an
+    alias means "nothing touched, the destination is the source" instead of "a different file" *)
+Lemma copy_file_n_safe : forall F s src dst i c s' r,
+  wf s -> stat s src = Ok i -> inode s i = Some (File c) -> stat_fault_harmless F s dst i ->
+  copy_file_n F s src dst = (s', r) ->
+  (r = None -> read_path s' dst = Some c /\ (stat s' dst <> Ok i \/ (s' = s /\ stat s dst = Ok i)))
+  /\ read_path s' src = Some c
+  /\ stat s' src = Ok i /\ inode s' i = Some (File c)
+  /\ (forall j n, inode s j = Some n -> stat s dst <> Ok j -> inode s' j = Some n)
+  /\ (forall e, slot s e <> Empty -> slot s' e = slot s e)
+  /\ (forall d old, stat s dst = Ok d -> inode s d = Some (File old) ->
+        inode s' d = Some (File old) \/ exists k, inode s' d = Some (File (firstn k c))).
+Proof.
+  intros F s src dst i c s' r Hwf Hs Hi HF. unfold copy_file_n.
+  destruct (alias_noop_cases F s src dst (copy_file_f F s src dst)) as [E | [E (a & Ha & Hb)]]; rewrite E.
+  - intros H. destruct (copy_file_f_safe _ _ _ _ _ _ _ _ Hwf Hs Hi HF H) as (H1 & H2 & H3 & H4 & H5 & H6 & H7).
+    split; [intros Hr; destruct (H1 Hr); auto | auto 10].
+  - intros H. injection H as <- <-. assert (a = i) by congruence. subst a.
+    assert (Hrd : forall p, stat s p = Ok i -> read_path s p = Some c) by (intros p Hp; eapply read_path_intro; eassumption).
+    split; [intros _; auto | auto 10].
+Qed.
+
+Lemma copy_replace_n_safe : forall F s src dst tmp i c s' r,
+  wf s -> stat s src = Ok i -> inode s i = Some (File c) -> stat_fault_harmless F s dst i -> tmp <> dst ->
+  copy_replace_n F s src dst tmp = (s', r) ->
+  (r = None -> read_path s' dst = Some c /\ (stat s' dst <> Ok i \/ (s' = s /\ stat s dst = Ok i)))
+  /\ read_path s' src = Some c
+  /\ stat s' src = Ok i /\ inode s' i = Some (File c)
+  /\ (forall j n, inode s j = Some n -> inode s' j = Some n)
+  /\ (forall e, e <> dst -> e <> tmp -> slot s' e = slot s e)
+  /\ (r <> None -> slot s' dst = slot s dst).
+Proof.
+  intros F s src dst tmp i c s' r Hwf Hs Hi HF Htd. unfold copy_replace_n.
+  destruct (alias_noop_cases F s src dst (copy_replace_f F s src dst tmp)) as [E | [E (a & Ha & Hb)]]; rewrite E.
+  - intros H. destruct (copy_replace_f_safe _ _ _ _ _ _ _ _ _ Hwf Hs Hi HF Htd H) as (H1 & H2 & H3 & H4 & H5 & H6 & H7).
+    split; [intros Hr; destruct (H1 Hr); auto | auto 10].
+  - intros H. injection H as <- <-. assert (a = i) by congruence. subst a.
+    assert (Hrd : forall p, stat s p = Ok i -> read_path s p = Some c) by (intros p Hp; eapply read_path_intro; eassumption).
+    split; [intros _; auto | ]. split; [auto|]. split; [auto|]. split; [auto|]. split; [auto|]. split; [auto|]. congruence.
+Qed.
+
+(** MoveFile's own alias test may be skipped by a fault only where it does not matter *)
+Definition move_alias_harmless (F : faults) (s : fs) (dst i : N) : Prop :=
+  F SMoveAlias = Pass \/ stat s dst <> Ok i.
+
+Lemma alias_check_false : forall F s src dst i,
+  stat s src = Ok i -> move_alias_harmless F s dst i -> alias_check F s src dst = false -> stat s dst <> Ok i.
+Proof.
+  intros F s src dst i Hs [HP | Hne] H; [|assumption]. unfold alias_check in H. rewrite HP in H. cbn [faulty] in H.
+  rewrite Hs in H. destruct (stat s dst) as [b|]; [|discriminate]. apply N.eqb_neq in H. congruence.
+Qed.
+
+(** with the alias test answering "no" and the destination indeed no alias, the fallback is the one of
+    the refusing variant *)
+Lemma move_n_file_eq : forall F s src dst i,
+  stat s src = Ok i -> stat s dst <> Ok i -> alias_check F s src dst = false ->
+  move_file_n F s src dst = move_file_f F s src dst.
+Proof.
+  intros F s src dst i Hs Hne Hc. unfold move_file_n, move_n, move_file_f, copy_file_n.
+  rewrite Hc, (alias_noop_skip _ _ _ _ _ _ Hs Hne). reflexivity.
+Qed.
+
+Lemma move_n_replace_eq : forall F s src dst tmp i,
+  stat s src = Ok i -> stat s dst <> Ok i -> alias_check F s src dst = false ->
+  move_replace_n F s src dst tmp = move_replace_f F s src dst tmp.
+Proof.
+  intros F s src dst tmp i Hs Hne Hc. unfold move_replace_n, move_n, move_replace_f, copy_replace_n.
+  rewrite Hc, (alias_noop_skip _ _ _ _ _ _ Hs Hne). reflexivity.
+Qed.
+
+Definition move_statement (s : fs) (src dst i : N) (c : list N) (s' : fs) (r : option err) : Prop :=
+  (r = None ->
+     read_path s' dst = Some c
+     /\ (slot s' src = Empty \/ (stat s dst = Ok i /\ slot s' src = Link i /\ inode s' i = Some (File c))))
+  /\ (r <> None -> slot s' src = Link i /\ inode s' i = Some (File c))
+  /\ (forall j n, inode s j = Some n -> stat s dst <> Ok j -> inode s' j = Some n)
+  /\ (slot s' src = Empty -> read_path s' dst = Some c).
+
+(** the generic argument: rename succeeded / alias refused / source cannot be opened / the refusing variant *)
+Lemma move_n_safe : forall (mv mvf : faults -> fs -> N -> N -> fs * option err) copy F s src dst i c s' r,
+  (forall F s src dst, mv F s src dst = move_n (copy F s src dst) F s src dst) ->
+  (forall F s src dst e, stat s src = Err e -> exists e', copy F s src dst = (s, Some e')) ->
+  (forall i, stat s src = Ok i -> stat s dst <> Ok i -> alias_check F s src dst = false -> mv F s src dst = mvf F s src dst) ->
+  (forall s' r, mvf F s src dst = (s', r) -> move_statement s src dst i c s' r) ->
+  slot s src = Link i -> inode s i = Some (File c) -> move_alias_harmless F s dst i ->
+  mv F s src dst = (s', r) -> move_statement s src dst i c s' r.
+Proof.
+  intros mv mvf copy F s src dst i c s' r Hdef Hopen Heq Hf Hs Hi HA H.
+  destruct (faulty (F SRename) (rename s src dst)) as [s1|re] eqn:Hr.
+  - rewrite Hdef in H. unfold move_n in H. rewrite Hr in H. injection H as <- <-.
+    apply faulty_ok in Hr.
+    destruct (rename_ok _ _ _ _ _ _ Hs Hi Hr) as [[-> Hst] | (Hempty & Hst & Hino)]; unfold move_statement.
+    + split; [|split; [|split]]; [| congruence | auto | intros E; rewrite Hs in E; discriminate].
+      intros _. split; [eapply read_path_intro; eassumption | right; auto].
+    + assert (Hrd : read_path s1 dst = Some c) by (eapply read_path_intro; [eassumption | now rewrite Hino]).
+      split; [|split; [|split]]; [| congruence | intros j n Hj _; now rewrite Hino | auto].
+      intros _. split; [assumption | left; assumption].
+  - destruct (alias_check F s src dst) eqn:Hc.
+    + rewrite Hdef in H. unfold move_n in H. rewrite Hr, Hc in H. injection H as <- <-. unfold move_statement.
+      split; [discriminate|]. split; [auto|]. split; [auto|]. intros E. rewrite Hs in E. discriminate.
+    + destruct (stat s src) as [i'|e] eqn:Hst.
+      * destruct (stat_direct_link _ _ _ Hs _ Hst) as [-> _].
+        pose proof (alias_check_false _ _ _ _ _ Hst HA Hc) as Hne.
+        rewrite (Heq _ eq_refl Hne eq_refl) in H. apply Hf. exact H.
+      * rewrite Hdef in H. unfold move_n in H. rewrite Hr, Hc in H.
+        destruct (Hopen F s src dst _ Hst) as [e' He']. rewrite He' in H. injection H as <- <-. unfold move_statement.
+        split; [discriminate|]. split; [auto|]. split; [auto|]. intros E. rewrite Hs in E. discriminate.
+Qed.
+
+Lemma copy_file_n_open_error : forall F s src dst e, stat s src = Err e -> exists e', copy_file_n F s src dst = (s, Some e').
+Proof.
+  intros F s src dst e H. unfold copy_file_n.
+  destruct (alias_noop_cases F s src dst (copy_file_f F s src dst)) as [E | [_ (a & Ha & _)]]; [|congruence].
+  rewrite E. eapply copy_file_open_error; eassumption.
+Qed.
+
+Lemma copy_replace_n_open_error : forall F s src dst tmp e, stat s src = Err e ->
+  exists e', copy_replace_n F s src dst tmp = (s, Some e').
+Proof.
+  intros F s src dst tmp e H. unfold copy_replace_n.
+  destruct (alias_noop_cases F s src dst (copy_replace_f F s src dst tmp)) as [E | [_ (a & Ha & _)]]; [|congruence].
+  rewrite E. eapply copy_replace_open_error; eassumption.
+Qed.
+
+Lemma move_file_n_safe : forall F s src dst i c s' r,
+  wf s -> slot s src = Link i -> inode s i = Some (File c) ->
+  stat_fault_harmless F s dst i -> move_alias_harmless F s dst i ->
+  move_file_n F s src dst = (s', r) -> move_statement s src dst i c s' r.
+Proof.
+  intros F s src dst i c s' r Hwf Hs Hi HF HA H.
+  eapply (move_n_safe move_file_n move_file_f copy_file_n); eauto.
+  - intros. eapply copy_file_n_open_error; eassumption.
+  - intros i0 H1 H2 H3. eapply move_n_file_eq; eassumption.
+  - intros s0 r0 H0. exact (move_file_f_safe _ _ _ _ _ _ _ _ Hwf Hs Hi HF H0).
+Qed.
+
+Lemma move_replace_n_safe : forall F s src dst tmp i c s' r,
+  wf s -> slot s src = Link i -> inode s i = Some (File c) ->
+  stat_fault_harmless F s dst i -> move_alias_harmless F s dst i -> tmp <> dst ->
+  move_replace_n F s src dst tmp = (s', r) -> move_statement s src dst i c s' r.
+Proof.
+  intros F s src dst tmp i c s' r Hwf Hs Hi HF HA Htd H.
+  eapply (move_n_safe (fun F s a b => move_replace_n F s a b tmp) (fun F s a b => move_replace_f F s a b tmp)
+            (fun F s a b => copy_replace_n F s a b tmp)); eauto.
+  - intros. eapply copy_replace_n_open_error; eassumption.
+  - intros i0 H1 H2 H3. eapply move_n_replace_eq; eassumption.
+  - intros s0 r0 H0. exact (move_replace_f_safe _ _ _ _ _ _ _ _ _ Hwf Hs Hi HF Htd H0).
+Qed.
+
+(** the test in MoveFile is needed: a no-op CopyFile under the unchanged MoveFile loses the file when the
+    destination is a symbolic link to the source on another device *)
+Definition move_unchecked_n (F : faults) (s : fs) (src dst : N) : fs * option err :=
+  match faulty (F SRename) (rename s src dst) with
+  | Ok s1 => (s1, None)
+  | Err _ =>
+      match copy_file_n F s src dst with
+      | (s1, Some e) => (s1, Some e)
+      | (s1, None) => match faulty (F SRemove) (remove s1 src) with Ok s2 => (s2, None) | Err e => (s1, Some e) end
+      end
+  end.
+
 (** * the defect of the earlier CopyFile (no same-file test) *)
 
 Definition self_fs : fs :=
@@ -754,3 +937,14 @@ Lemma scenario_tmp : forall k od c,
   tmp_path <> dst_path k /\ slot (scenario k od false c) tmp_path = Empty
   /\ parent (scenario k od false c) tmp_path = parent (scenario k od false c) (dst_path k).
 Proof. intros k od c. destruct k; repeat split; discriminate. Qed.
+
+Lemma move_unchecked_noop_loses :
+  exists s src dst i c,
+    wf s /\ slot s src = Link i /\ inode s i = Some (File c) /\ c <> []
+    /\ snd (move_unchecked_n no_faults s src dst) = None
+    /\ slot (fst (move_unchecked_n no_faults s src dst)) src = Empty
+    /\ read_path (fst (move_unchecked_n no_faults s src dst)) dst = None.
+Proof.
+  exists (scenario KSymlinkToSrc true false [1; 2; 3]), 0, 1, 0, [1; 2; 3].
+  split; [apply scenario_wf|]. repeat split; try (vm_compute; reflexivity). discriminate.
+Qed.
